@@ -86,6 +86,9 @@ Lemma facts_parts T : facts_ok T = true ->
   auth_ok T = true /\ lits_ok T = true /\ writes_ok T = true /\ ctl_ok T = true /\ flows_ok T = true /\ enc_ok T = true.
 Proof. unfold facts_ok. rewrite !andb_true_iff. tauto. Qed.
 
+Lemma facts_sniff T : facts_ok T = true -> sniff_ok T = true.
+Proof. unfold facts_ok. rewrite !andb_true_iff. tauto. Qed.
+
 Lemma facts_enc T : facts_ok T = true -> enc_ok T = true.
 Proof. intros H. apply facts_parts in H. tauto. Qed.
 
@@ -602,3 +605,24 @@ Qed.
 (* what everybody knows contains no secret unless the token is the empty string *)
 Lemma public_no_secret c : w_token_empty c = false -> forall a, is_secret a = true -> public c a = false.
 Proof. intros H [] Hs; cbn in *; try reflexivity; try discriminate. assumption. Qed.
+
+(* every network listener served by HandleListener hands exactly the configured force flag to the sniff *)
+Lemma sniff_force_configured T configured l :
+  sniff_ok T = true -> In l sniffing_kinds -> sniff_force T configured l = ForceIs configured.
+Proof.
+  unfold sniff_ok. rewrite !andb_true_iff. intros [[H _] _] Hin. rewrite forallb_forall in H. specialize (H l Hin).
+  destruct l; cbn in Hin; try (exfalso; intuition discriminate); unfold sniff_force in *;
+    destruct (listener_internal T _) as [[]|]; destruct (tb_sniff T) as [|s [|]]; try discriminate;
+    destruct (ss_guard s); try discriminate; destruct (ss_force s); try discriminate; destruct configured; reflexivity.
+Qed.
+
+(* whatever listener the peer arrives on: if the configured flag is on and the peer does not speak TLS,
+   the flag handed to the sniff is on and no session ever comes up *)
+Lemma forced_no_session_any_listener T c h l configured :
+  sniff_ok T = true -> In l sniffing_kinds ->
+  sniff_force T configured l = ForceIs (w_force c) -> configured = true -> conn_tls c = false ->
+  ws_up (fst (run T c init h)) = false.
+Proof.
+  intros Hok Hin Hf Hc Ht. rewrite (sniff_force_configured T configured l Hok Hin) in Hf. injection Hf as Hf.
+  apply rejected_no_session, forced_plain_client_rejected; [congruence|assumption].
+Qed.
